@@ -35,7 +35,7 @@ theorem queries_total (hdr ihdr : Bytes) (dir : Dir) (s : Sess) (xs : List Entry
     intro sb eb; unfold apiReadFirstN; simp [pure, Except.pure]
   have hrn0 : ∀ sb eb, apiReadN dir s 0 sb eb = .ok [] := by
     intro sb eb; unfold apiReadN
-    simp [hinv.nocache, pure, Except.pure, bind, Except.bind]
+    simp [hinv.nocache, pure, Except.pure, bind, Except.bind, lensSorted]
   cases xs with
   | nil =>
     have hseek := seek_empty hdr ihdr dir s hinv
@@ -48,8 +48,8 @@ theorem queries_total (hdr ihdr : Bytes) (dir : Dir) (s : Sess) (xs : List Entry
       · simp [hn, hseek, bind, Except.bind]
     · intro n sb eb; unfold apiReadN
       by_cases hn : n = 0
-      · simp [hn, hinv.nocache, pure, Except.pure, bind, Except.bind]
-      · simp [hn, hinv.nocache, pure, Except.pure, bind, Except.bind, selectLevel, selectLevel.go, hseek]
+      · simp [hn, hinv.nocache, pure, Except.pure, bind, Except.bind, lensSorted]
+      · simp [hn, hinv.nocache, pure, Except.pure, bind, Except.bind, selectLevel, selectLevel.go, levelData, readNTail, lensSorted, hseek]
     · intro sb eb; unfold apiNLines; rw [hseek]; simp
     · unfold lastLineOf
       have : s.d.lastFull = none := by rw [hinv.data.lastFull]; rfl
